@@ -21,7 +21,8 @@ buffers.
 import random
 
 ERR_KINDS = [4, 5, 6, 7]
-CHARS = {0: [0x0A], 1: [0xC3, 0xA9], 2: [0xE2, 0x84, 0x9D], 3: [0xF0, 0x9F, 0x98, 0x80]}
+CHARS = {0: [0x0A], 1: [0xC3, 0xA9], 2: [0xE2, 0x84, 0x9D], 3: [0xF0, 0x9F, 0x98, 0x80], 4: [0xE2, 0x82, 0xAC]}
+CTORS = {0: "new", 1: "default", 2: "clone(new)", 3: "clone(default)"}
 SMALL = [0, 1, 2, 3, 10, 97, 98, 255]
 
 
@@ -39,7 +40,7 @@ def gen_framer(rng):
         n = rng.choice([1, 1, 2, 2, 3])
         return [2] + lp([rng.choice(SMALL) for _ in range(n)])
     if r < 0.88:
-        return [3, rng.randrange(4)]
+        return [3, rng.randrange(5)]
     return [4]
 
 
@@ -336,10 +337,20 @@ def gen_case(rng, pending):
     return [7, rng.choice([0, 1, 4, 4, 8, 12, 20, 40])] + gen_ctl_bytes(rng)
 
 
+def with_ctor(rng, case):
+    """the framer (and BytesCodec) of the case is built by new(), Default::default() or a clone of
+    either: case[1] = kind + 10 * path (AnyDelimited has no Default)"""
+    if case and case[0] in (1, 2, 3, 4, 8, 9) and len(case) > 1 and case[1] < 10:
+        path = rng.choice([0, 0, 1, 1, 2, 3]) if case[1] != 2 else rng.choice([0, 2])
+        case = [case[0], case[1] + 10 * path] + case[2:]
+    return case
+
+
 def generate(seed, n):
     rng = random.Random(seed)
+    crng = random.Random(seed * 7919 + 13)
     pending = []
-    return [gen_case(rng, pending) for _ in range(n)]
+    return [with_ctor(crng, gen_case(rng, pending)) for _ in range(n)]
 
 
 OPS = {1: "encode", 2: "decode-hostile-stream", 3: "roundtrip", 4: "extract-hostile",
@@ -352,9 +363,12 @@ def describe(case):
     op = case[0] if case else -1
     name = OPS.get(op, "op%d" % op)
     if op in (1, 2, 3, 4, 8, 9) and len(case) > 1:
-        name += ":" + FRS.get(case[1], "?")
-        if case[1] == 1 and len(case) > 2:
+        kind, path = case[1] % 10, case[1] // 10
+        name += ":" + FRS.get(kind, "?")
+        if kind == 1 and len(case) > 2:
             name += str(case[2])
+        if path:
+            name += "+" + CTORS.get(path, "?")
     return name
 
 
